@@ -107,10 +107,13 @@ def run(ctx):
     res = Result()
     reqs, impls = [], []
     for i in range(ctx.budget(1800, 30000)):
-        perts = [(None, 0), (None, 0), ("rid", RID_DELTAS[(i // 7) % len(RID_DELTAS)]), ("rid", ctx.rng.choice(RID_DELTAS)), ("rid", ctx.rng.randrange(-(2**33), 2**33) or 1), ("community", i // 7), ("version", i // 7)]
+        perts = [(None, 0), (None, 0), ("rid", RID_DELTAS[(i // 7) % len(RID_DELTAS)]), ("rid", ctx.rng.choice(RID_DELTAS)), ("rid", ctx.rng.randrange(-(2**33), 2**33) or 1), ("community", ctx.rng.randrange(10**6)), ("version", ctx.rng.randrange(10**6))]
         db = O.random_db(ctx.rng, ctx.rng.randint(1, 8))
         name, args = O.random_op(ctx.rng, db)
         version, level = O.PROTOS[i % len(O.PROTOS)] if i % 2 else ("v2c", "noauth")
+        if perts[i % len(perts)][0] in ("community", "version"):
+            # community-based versions in turn (index arithmetic alone kept SNMPv1 on one variant)
+            version, level = (("v1", "noauth"), ("v2c", "noauth"))[(i // len(perts)) % 2]
         ck, clock = clocks(ctx.rng)
         one_case(ctx, res, db, name, args, version, level, perts[i % len(perts)], ck, clock, reqs, impls)
     # SNMPv3 retransmission after a notInTimeWindow report (agent restarted) under an advancing clock:
